@@ -23,6 +23,7 @@ RULE = ("crash-point enumeration: a fault-free run of each scenario counts its N
         "sources, tee with lock, lru_cache, cached_property with lock, ExitStack, scoped_iter blocks. one evaluation "
         "= one cancelled run; non-trivial = cancellation hit while a closable source/lock/stack entry was live; "
         "distinct = (scenario, i)")
+RULE += (' Also: sources without aclose, adapters, future-like sources; after a cancelled tee child the other children are read to their end (nothing poisoned); lru scenarios with several overlapping tasks.')
 ASSUMPTIONS = ["user cleanup (source aclose, lock release) does not itself suspend",
                "an async-generator source cancelled inside its own await dies with the cancellation (language semantics)"]
 EXHAUSTIVE = {"quick": False, "thorough": False}
